@@ -27,6 +27,7 @@ import (
 
 	"gtverif/internal/gal"
 	"gtverif/internal/logsched"
+	"gtverif/internal/logvocab"
 )
 
 type cop struct {
@@ -71,7 +72,7 @@ type childObs struct {
 	Obs cobs `json:"obs"`
 }
 
-func zfield(k uint64) zap.Field { return zap.Int64(fmt.Sprintf("f%d", k%7), int64(k)) }
+func zfield(k uint64) zap.Field { return logvocab.Field(k) }
 
 func zfields(ks []uint64) []zap.Field {
 	out := make([]zap.Field, len(ks))
@@ -81,12 +82,11 @@ func zfields(ks []uint64) []zap.Field {
 	return out
 }
 
-func fieldID(f zapcore.Field) uint64 {
-	if f.Type == zapcore.Int64Type && f.Integer >= 0 && f.Key == fmt.Sprintf("f%d", uint64(f.Integer)%7) {
-		return uint64(f.Integer)
-	}
-	return 1 << 40
-}
+func fieldID(f zapcore.Field) uint64 { return logvocab.ID(f) }
+
+// opsDone[t]: calls goroutine t has completed in the current run (written by the goroutine that
+// holds the baton, read by the controller while everybody is parked)
+var opsDone []int
 
 var levels = []zapcore.Level{zapcore.DebugLevel, zapcore.InfoLevel, zapcore.WarnLevel, zapcore.ErrorLevel}
 var levelsZ = levels
@@ -203,10 +203,12 @@ func runCaseX(in initSpec, progs [][]cop, tail []cop, prefix []int, pick picker,
 	}
 	var born []kid
 	kids = []childObs{}
+	opsDone = make([]int, n+1)
 	body := func(t int, p []cop) func() {
 		cx := context.WithValue(base, otherKey{t}, t) // a distinct context sharing the holder
 		return func() {
 			for i, o := range p {
+				opsDone[t] = i
 				switch o.Op {
 				case "With":
 					log.WithFields(cx, zfields(o.Fields)...)
@@ -216,6 +218,7 @@ func runCaseX(in initSpec, progs [][]cop, tail []cop, prefix []int, pick picker,
 					log.SetLevel(cx, zapcore.Level(o.Level))
 				}
 			}
+			opsDone[t] = len(p)
 		}
 	}
 	for t := 0; t < n; t++ {
@@ -576,7 +579,8 @@ func search(out *gal.Out, budget, keep int, limit time.Duration) {
 	sl := func(l int) cop { return cop{Op: "SetLevel", Level: l} }
 	ch := func(k uint64) cop { return cop{Op: "Child", Fields: []uint64{k}} }
 	dbg := -1
-	inits := []initSpec{{Level: 0, Fields: []uint64{}}, {Level: 1, Fields: []uint64{9}, Wrap: &dbg}}
+	// the second one is not used by anybody before the goroutines start: concurrent first use
+	inits := []initSpec{{Level: 0, Fields: []uint64{}}, {Level: 0, Fields: []uint64{8, 9}}, {Level: 1, Fields: []uint64{9}, Wrap: &dbg}}
 	// smallest first: the four pairs of single calls (mixed pairs in both orders), then longer ones
 	type entry struct {
 		progs [][]cop
@@ -774,7 +778,9 @@ func (g *gen) progs() (initSpec, [][]cop) {
 	g.next = 1
 	in := initSpec{Level: g.level(), Fields: []uint64{}}
 	if accumulate {
-		in.Steps = true
+		// collected one call at a time - or all given to InitLogger, the logger then being used
+		// for the first time by the goroutines themselves (concurrent first use)
+		in.Steps = g.r.IntN(2) == 0
 		for k := g.r.IntN(9); k > 0; k-- {
 			in.Fields = append(in.Fields, g.next)
 			g.next++
@@ -832,6 +838,62 @@ func (g *gen) picker(kind int) picker {
 				return step % n // every goroutine performs its first Load before anyone updates
 			}
 			return r[g.r.IntN(len(r))]
+		}
+	}
+}
+
+// starvePicker: the victim takes m steps, then the attacker completes one whole call, and so on:
+// whatever the victim loaded is stale by the time it tries to install its update - every time.
+// A retry loop that gives up after k attempts (falls back to a plain store, returns early, ...)
+// is driven into its fallback, with one more attacker call landing inside it.
+func starvePicker(victim, attacker, m int) picker {
+	left, target := m, -1
+	return func(step int, s *logsched.Sched, n int) int {
+		if s.Done(victim) || s.Done(attacker) {
+			r := running(s, n)
+			return r[step%len(r)]
+		}
+		if left > 0 {
+			left--
+			return victim
+		}
+		if target < 0 {
+			target = opsDone[attacker] + 1
+		}
+		if opsDone[attacker] >= target {
+			left, target = m-1, -1
+			return victim
+		}
+		return attacker
+	}
+}
+
+// starve emits the starvation-directed cases: one victim call against an attacker with enough
+// calls to make the victim lose k rounds (k up to 16) and to land inside whatever comes after.
+func starve(out *gal.Out, limit int) {
+	info := initSpec{Level: 0, Fields: []uint64{}}
+	count := 0
+	for _, k := range []int{11, 2, 16, 5, 1, 3, 8, 12} {
+		for _, m := range []int{1, 2} {
+			for variant := 0; variant < 4; variant++ {
+				if limit > 0 && count >= limit {
+					return
+				}
+				victim := cop{Op: "With", Fields: []uint64{1}}
+				if variant%2 == 1 {
+					victim = cop{Op: "SetLevel", Level: 2}
+				}
+				var att []cop
+				for i := 0; i < 2*k+4; i++ {
+					if variant >= 2 && i%2 == 1 {
+						att = append(att, cop{Op: "SetLevel", Level: i%4 - 1})
+					} else {
+						att = append(att, cop{Op: "With", Fields: []uint64{uint64(10 + i)}})
+					}
+				}
+				emit(out, "starve", info, [][]cop{{victim}, att}, nil, nil, starvePicker(0, 1, m))
+				count++
+			}
 		}
 	}
 }
@@ -912,6 +974,8 @@ func main() {
 		}
 	case "search":
 		search(out, *budget, 12, time.Duration(*limit)*time.Second)
+	case "starve":
+		starve(out, *n)
 	default:
 		for i := 0; i < *n && schedErr == ""; i++ {
 			in, progs := g.progs()
